@@ -173,7 +173,7 @@ GEN = {"C10": gen_c10, "C11": gen_c11, "C19": gen_c19}
 NEED = {
     "C10": ["C10:lost", "C10:spurious", "C10:wrong-thread", "C10:disposition", "C10:handoff", "C10:child-triggered"],
     "C11": ["C11:lost", "C11:order", "C11:spurious", "C11:kill-reaped", "C11:zombie", "C11:wrong-thread"],
-    "C19": ["C19:signal-seq", "C19:signal-interval", "C19:kill-reaped", "C19:abandoned", "C19:zombie", "C19:leak"],
+    "C19": ["C19:signal-seq", "C19:signal-interval", "C19:kill-reaped", "C19:abandoned", "C19:zombie", "C19:leak", "C19:wiring"],
 }
 
 
@@ -192,8 +192,27 @@ def run(pid, tier, seed, replay=None):
             scripts = [GEN[pid](rnd, "%sr%d.%d" % (pid, seed, i), rnd.choice(["epoll", "epoll-timerfd", "poll", "ppoll"])) for i in range(n)]
         tfs = corerun.run_scripts(exe, scripts, sc, tag="run")
         idx = corerun.script_index(scripts)
+        nreal = 0
+        if pid == "C19" and not replay:
+            # the wiring clause needs a real fork/exec: pass-through scenario, real time
+            import subprocess
+            rexe = vlib.build_harness("ivh_popen_real", ["ivh_popen_real.c"], "plain")
+            rt = sc.path("real", "popen-real.ndjson")
+            with open(rt, "w") as f:
+                for ty in ("r", "w"):
+                    for m in coregen_methods():
+                        env = dict(os.environ, IV_EXCLUDE_POLL_METHOD=excl(m))
+                        r = subprocess.run([rexe, ty], stdout=subprocess.PIPE, stderr=subprocess.DEVNULL, text=True, timeout=60, env=env)
+                        if '"End"' not in r.stdout:
+                            r_out = r.stdout + '{"t":0,"e":"End","why":"crash","sig":%d,"now":[0,0]}\n' % abs(r.returncode)
+                        else:
+                            r_out = r.stdout
+                        f.write(r_out.replace('"popen-real-%s"' % ty, '"popen-real-%s-%s"' % (ty, m)))
+                        idx["popen-real-%s-%s" % (ty, m)] = "# pass-through: ivh_popen_real %s under %s\n" % (ty, m)
+                        nreal += 1
+            tfs = tfs + [rt]
         verdicts, nev = vlib.validate_traces(tfs, sc)
-        if len(verdicts) != len(scripts):
+        if len(verdicts) != len(scripts) + nreal:
             raise vlib.MachineryError("%d scripts but %d verdicts" % (len(scripts), len(verdicts)))
         states = trans = 0
         runs, covall = [], {}
@@ -256,6 +275,15 @@ def run(pid, tier, seed, replay=None):
         "signals and child processes are simulated by harness/simk_sig.c: handlers run synchronously at delivery points (mask changes, waits, lock operations); fork() returns scripted pids",
         "TLC evaluates spec/MonSig.tla on every recorded execution"]
     return rep.finish()
+
+
+def coregen_methods():
+    return ["epoll-timerfd", "epoll", "ppoll", "poll"]
+
+
+def excl(m):
+    allm = coregen_methods()
+    return " ".join(allm[:allm.index(m)])
 
 
 def sign(pid, rule, script):
